@@ -33,6 +33,21 @@ def encodeString (s : Bytes) : Bytes :=
 def encodeList (items : List Bytes) : Bytes :=
   header 0xc0 items.flatten.length ++ items.flatten
 
+/-- an RLP item: a byte string or a list of items (the deep view; `decodeList` itself is shallow) -/
+inductive Item where
+  | str (s : Bytes)
+  | list (xs : List Item)
+
+mutual
+/-- the canonical encoding of an item -/
+def encode : Item → Bytes
+  | .str s => encodeString s
+  | .list xs => encodeList (encodeItems xs)
+def encodeItems : List Item → List Bytes
+  | [] => []
+  | x :: xs => encode x :: encodeItems xs
+end
+
 /-- one well-delimited item: a single byte below 0x80, or canonical header + that many bytes -/
 def IsFrame (f : Bytes) : Prop :=
   (∃ b : UInt8, f = [b] ∧ b.toNat ≤ 0x7f) ∨
